@@ -104,6 +104,7 @@ def run(run):
     run.outside = ["n > 4, m > 3"]
     run.rule = "one item per (dataset, flag); per path: membership (structural), minimality and completeness of the returned set (solver)"
     items = sweep.make_items(run, ["PickAPerm"], [chk_pick, "wellformed"], flags=(True, False), light=light, heavy=light)
+    items += sweep.history_items(run, ["PickAPerm"], [chk_pick, "wellformed"], 12 if run.thorough else 6, flags=(True, False))
     run.pmap("pickaperm", sweep.run_item, items, chunksize=4)
     import random
     rnd = random.Random(run.seed)
@@ -124,7 +125,7 @@ def replay(p):
     from corankco.scoringscheme import ScoringScheme
     from corankco.algorithms.pickaperm.pickaperm import PickAPerm
     sc = ScoringScheme([[float(x) for x in v] for v in p["scheme"]])
-    ds = Dataset.from_raw_list(shapes.from_json(p["rankings"]))
+    ds = sweep.replay_dataset(p, sc)          # applies a recorded history (aggregate, edit in place) to a real Dataset
     alg = PickAPerm()
     if "history_first" in p:
         try:
@@ -132,15 +133,16 @@ def replay(p):
         except Exception:  # noqa
             pass
     names, lvs = sweep.concrete_levels(p)
+    complete = all(len(lv) == len(names) for lv in lvs)       # from the raw rankings, not from the library's flag
     lam = sc.b_vector[1]
     is_unif = all(abs(sc.b_vector[i] - lam * UNIF[0][i]) < 1e-12 and abs(sc.t_vector[i] - lam * UNIF[1][i]) < 1e-12 for i in range(6))
     try:
         cons = alg.compute_consensus_rankings(ds, sc, p["flag"])
     except Exception as e:  # noqa
         if type(e).__name__ == "InompleteRankingsIncompatibleWithScoringSchemeException":
-            return ds.is_complete or is_unif, f"refused; complete={ds.is_complete}, unifying multiple={is_unif}"
+            return complete or is_unif, f"refused; complete={complete}, unifying multiple={is_unif}"
         return True, f"raised {type(e).__name__}: {e}"
-    if not ds.is_complete and not is_unif:
+    if not complete and not is_unif:
         return True, "incomplete dataset accepted with a scheme that is not a multiple of the unifying scheme"
     uni = ds.unified_rankings()
     sc_in = [(sweep.cscore(r, names, lvs, sc), r) for r in uni]
